@@ -9,7 +9,7 @@
      [0, 2^53] and every integer V.  Nothing is bounded. *)
 From Coq Require Import ZArith List Bool Lia.
 From Coq Require Import Init.Byte.
-From FFS Require Import Base.Res Base.Bytes Crypto.Ecdsa Secp.Model Secp.Spec Secp.Proofs.
+From FFS Require Import Base.Res Base.Bytes Crypto.Ecdsa Secp.Model Secp.Spec Secp.Proofs Secp.ProofsChain.
 Import ListNotations.
 Local Open Scope Z_scope.
 
@@ -131,6 +131,18 @@ Theorem C05_other_V_refuted :
     RecoverDirect o H (with_V sg V) msg c = Ok (addr_of o H (pub o d)).
 Proof. intros; eapply other_V_refuted; eauto. Qed.
 Print Assumptions C05_other_V_refuted.
+
+(* 3'''. The EIP-155 form of V presented with ANOTHER chain id (round 3): V = 35 + 2c + parity is an
+      error for every chain id c' in [0, 2^53] that is not congruent to c modulo 128 -- whatever R, S
+      and the message are -- and passes V normalisation (as parity's 27/28) exactly for the congruent
+      ones, which is the region of known finding C05/v-truncated-to-byte restricted to chain ids. *)
+Theorem C05_eip155_wrong_chain :
+  forall o H, (forall x, length (H x) = 32%nat) -> forall sg msg p c c',
+    (p = 0 \/ p = 1) -> 0 <= c <= 2 ^ 53 -> 0 <= c' <= 2 ^ 53 -> sV sg = 35 + 2 * c + p ->
+    ((c - c') mod 128 <> 0 -> RecoverDirect o H sg msg c' = Err EInvalidV) /\
+    ((c - c') mod 128 = 0 -> getVNormalized sg c' = Ok (27 + p)).
+Proof. exact eip155_wrong_chain. Qed.
+Print Assumptions C05_eip155_wrong_chain.
 
 (* 4. Tampering.  [other_key o H d a]: a is the address of a public key different from the signer's,
       whose 64-byte encoding differs from the signer's -- so a equals the signer's address only if the
@@ -292,4 +304,19 @@ Proof.
     + split; discriminate.
     + right; exact HV.
   - split; [|reflexivity]. unfold v_alias. repeat split; try discriminate. exists 1, 1. repeat split; auto. discriminate.
+Qed.
+
+(* the two cases of C05_eip155_wrong_chain both occur: chain 1's V = 38 is rejected for chain 2 and for
+   chain 2^53, and accepted for chain 129 *)
+Example C05_eip155_wrong_chain_nonvacuous :
+  let sg := {| sV := 38; sR := 1; sS := 1 |} in
+  RecoverDirect Toy.ops toyH sg [x07] 2 = Err EInvalidV /\
+  RecoverDirect Toy.ops toyH sg [x07] (2 ^ 53) = Err EInvalidV /\
+  getVNormalized sg 129 = Ok 28 /\ getVNormalized sg 1 = Ok 28.
+Proof.
+  cbv zeta. split; [|split; [|split]].
+  - apply (proj1 (C05_eip155_wrong_chain Toy.ops toyH toyH_len {| sV := 38; sR := 1; sS := 1 |} [x07] 1 1 2 (or_intror eq_refl) ltac:(split; discriminate) ltac:(split; discriminate) eq_refl)). discriminate.
+  - apply (proj1 (C05_eip155_wrong_chain Toy.ops toyH toyH_len {| sV := 38; sR := 1; sS := 1 |} [x07] 1 1 (2 ^ 53) (or_intror eq_refl) ltac:(split; discriminate) ltac:(split; discriminate) eq_refl)). discriminate.
+  - apply (proj2 (C05_eip155_wrong_chain Toy.ops toyH toyH_len {| sV := 38; sR := 1; sS := 1 |} [x07] 1 1 129 (or_intror eq_refl) ltac:(split; discriminate) ltac:(split; discriminate) eq_refl)). reflexivity.
+  - reflexivity.
 Qed.
